@@ -142,6 +142,9 @@ func (m *monitor) replayData(stage string, f *fileCase, ids []ident, info map[st
 func (m *monitor) check(stage, class string, f *fileCase, ids []ident, info map[string]any) {
 	r := m.r
 	caseName := fmt.Sprintf("%s | %s | armored=%v | ids=%s", stage, f.desc, f.armored(), strings.Join(descsOf(ids), " "))
+	if ph, ok := info["phase"].(string); ok {
+		caseName += " | phase=" + ph
+	}
 
 	var refs []refage.Key
 	for _, i := range ids {
